@@ -40,7 +40,7 @@ class IdentityDatabase(Database):
     This database does not store: commitments and schemes for proving knowledge of data.
     """
 
-    LATEST_DB_VERSION = 1
+    LATEST_DB_VERSION = 2
 
     def insert_token(self, public_key: PublicKey, token: Token) -> None:
         """
@@ -180,7 +180,7 @@ class IdentityDatabase(Database):
                  metadata_pointer BLOB,
                  signature BLOB,
 
-                 PRIMARY KEY (public_key, metadata_pointer)
+                 PRIMARY KEY (public_key, authority_key, metadata_pointer)
                  );
 
                  CREATE TABLE IF NOT EXISTS option(key TEXT PRIMARY KEY, value BLOB);
@@ -188,6 +188,29 @@ class IdentityDatabase(Database):
                  INSERT INTO option(key, value) VALUES('database_version', '%s');
                  """
         return schema % str(self.LATEST_DB_VERSION)
+
+    def get_upgrade_script(self, current_version: int) -> str | None:
+        """
+        Return the upgrade script for a specific version.
+        """
+        if current_version == 1:
+            # Version 1 keyed attestations by (public_key, metadata_pointer): the first authority to attest to some
+            # metadata shadowed all others (including ourselves). Attestations are now also keyed by their authority.
+            return """
+                   ALTER TABLE Attestations RENAME TO Attestations_v1;
+                   CREATE TABLE Attestations(
+                   public_key BLOB,
+                   authority_key BLOB,
+                   metadata_pointer BLOB,
+                   signature BLOB,
+
+                   PRIMARY KEY (public_key, authority_key, metadata_pointer)
+                   );
+                   INSERT OR IGNORE INTO Attestations
+                   SELECT public_key, authority_key, metadata_pointer, signature FROM Attestations_v1;
+                   DROP TABLE Attestations_v1;
+                   """
+        return None
 
     def check_database(self, database_version: bytes) -> int:
         """
@@ -197,10 +220,13 @@ class IdentityDatabase(Database):
         assert int(database_version) >= 0
         database_version_num = int(database_version) or self.LATEST_DB_VERSION
 
-        # This is where an existing schema would be upgraded.
-        # As no changes have been made, there is nothing to upgrade.
+        script = ""
+        while database_version_num < self.LATEST_DB_VERSION:
+            script += self.get_upgrade_script(database_version_num) or ""
+            database_version_num += 1
 
-        self.executescript(self.get_schema(database_version_num))
+        # Upgrade and version bump in one transaction: a crash must not leave an upgraded table with the old version.
+        self.executescript(f"BEGIN;\n{script}{self.get_schema(database_version_num)}COMMIT;\n")
         self.commit()
 
         return self.LATEST_DB_VERSION
